@@ -6,6 +6,7 @@ import O1722.Spec.Wire
 import O1722.Spec.Formats
 import O1722.Model.Utils
 import O1722.Model.Can
+import O1722.Model.Vss
 
 namespace O1722.Driver
 open O1722 O1722.Spec
@@ -87,6 +88,9 @@ def viewsJson : String :=
       | _, _ => none))
     "{\"a\":" ++ jsonStr v.a.name ++ ",\"b\":" ++ jsonStr v.b.name ++ ",\"pairs\":[" ++ ",".intercalate pairs ++ "]}"
   "{\"views\":[" ++ ",".intercalate (sharedViews.map one) ++ "]}"
+
+def bytesOf (a : Array UInt8) : List Byte := a.toList.map (fun b => Fin.ofNat 256 b.toNat)
+def hexOfBytes (bs : List Byte) : String := toHex (bs.toArray.map (fun b => UInt8.ofNat b.val))
 
 def nat? (s : String) : Option Nat := s.toNat?
 
@@ -202,6 +206,80 @@ def step (st : State) (line : String) : State × String :=
     match st.get id, nat? off with
     | some a, some off => (st, s!"v {canPayloadLength Spec.can (memOf a) off}")
     | _, _ => (st, "bad-op")
+  -- VSS: the hand MODEL of Vss.c (host order little, as the harness host)
+  | ["vss_pad", id, off, len] =>
+    match st.get id, nat? off, nat? len with
+    | some a, some off, some len => (st.put id (arrOf (vssPad 1 (memOf a) off len) a.size), "")
+    | _, _, _ => (st, "bad-op")
+  | ["vss_calc", id, off] =>
+    match st.get id, nat? off with
+    | some a, some off => (st, s!"v {vssCalcPathLength .little (memOf a) off}")
+    | _, _ => (st, "bad-op")
+  | ["vss_setpath", id, off, plen, hex, sid] =>
+    match st.get id, nat? off, nat? plen, parseHex hex, nat? sid with
+    | some a, some off, some plen, some path, some sid =>
+      let p : CPath := ⟨plen % 2 ^ 16, bytesOf path, sid % 2 ^ 32⟩
+      (st.put id (arrOf (vssSetPath .little (memOf a) off p) a.size), "")
+    | _, _, _, _, _ => (st, "bad-op")
+  | ["vss_getpath", id, off] =>
+    match st.get id, nat? off with
+    | some a, some off =>
+      match vssGetPath .little (memOf a) off with
+      | .staticId n => (st, s!"sid {n}")
+      | .interop n bs => (st, s!"path {n} " ++ hexOfBytes bs)
+      | .none => (st, "none")
+    | _, _ => (st, "bad-op")
+  | ["vss_setdata", id, off, "s", bits] =>
+    match st.get id, nat? off, nat? bits with
+    | some a, some off, some bits => (st.put id (arrOf (vssSetData .little (memOf a) off (.scalar bits)) a.size), "")
+    | _, _, _ => (st, "bad-op")
+  | ["vss_setdata", id, off, "b", len, hex] =>
+    match st.get id, nat? off, nat? len, parseHex hex with
+    | some a, some off, some len, some d =>
+      (st.put id (arrOf (vssSetData .little (memOf a) off (.blob (len % 2 ^ 16) (bytesOf d))) a.size), "")
+    | _, _, _, _ => (st, "bad-op")
+  | ["vss_setdata", id, off, "e", len, vals] =>
+    match st.get id, nat? off, nat? len with
+    | some a, some off, some len =>
+      let xs := if vals == "-" then [] else (vals.splitOn ",").filterMap nat?
+      (st.put id (arrOf (vssSetData .little (memOf a) off (.elems (len % 2 ^ 16) xs)) a.size), "")
+    | _, _, _ => (st, "bad-op")
+  | ["vss_getdata", id, off, hv] =>
+    match st.get id, nat? off with
+    | some a, some off =>
+      match vssGetData .little (memOf a) off (hv == "1") with
+      | .scalar b => (st, s!"s {b}")
+      | .blob n d => (st, s!"b {n} " ++ (match d with | some bs => hexOfBytes bs | none => "-"))
+      | .elems n d => (st, s!"e {n} " ++ (match d with
+          | some xs => if xs.isEmpty then "-" else ",".intercalate (xs.map toString)
+          | none => "-"))
+      | .none => (st, "none")
+    | _, _ => (st, "bad-op")
+  | "vss_ser" :: cap :: n :: rest =>
+    match nat? cap, nat? n with
+    | some cap, some n =>
+      let rec strs : List String → List (Nat × List Byte)
+        | l :: h :: more => (match nat? l, parseHex h with
+            | some l, some d => (l % 2 ^ 16, bytesOf d) :: strs more
+            | _, _ => strs more)
+        | _ => []
+      let ss := strs rest
+      if ss.length != n then (st, "bad-op") else
+      let m0 : Mem := fun _ => 0xEE
+      let r := vssSerialize .little m0 0 ss 0
+      (st, s!"b {r.2} " ++ toHex (arrOf r.1 cap))
+    | _, _ => (st, "bad-op")
+  | ["vss_count", len, hex] =>
+    match nat? len, parseHex hex with
+    | some len, some d => (st, s!"v {(vssCount .little 16 (memOf d) 0 len).1}")
+    | _, _ => (st, "bad-op")
+  | ["vss_deser", len, hex, num, hv] =>
+    match nat? len, parseHex hex, nat? num with
+    | some len, some d, some num =>
+      let r := (vssDeserialize .little true (memOf d) 0 (len % 2 ^ 16) (List.replicate num (hv == "1")) 0 0).1
+      let shown := r.map (fun (l, bs) => s!" {l}:" ++ (match bs with | some b => hexOfBytes b | none => "-"))
+      (st, "n" ++ String.join shown ++ String.join (List.replicate (num - r.length) " ."))
+    | _, _, _ => (st, "bad-op")
   -- byte-order helpers on a little-endian host (the host the harness runs on)
   | ["bo", h, x] =>
     match nat? x with
